@@ -9,6 +9,7 @@ from __future__ import annotations
 
 import asyncio
 import itertools
+import re
 from fractions import Fraction
 
 from vf.vloop import close_loop, new_loop
@@ -42,7 +43,7 @@ def setup(ctx):
     ctx.require("monitor", "scheduled_histories", 20)
     ctx.require("monitor", "wired_decisions", 30)
     ctx.require("monitor", "wired_tls_decisions", 40)
-    ctx.require("monitor", "wired_through_serve_command", 3)
+    ctx.require("monitor", "wired_through_serve_command", 7)
 
 
 class VTime:
@@ -317,6 +318,15 @@ def run_wired(ctx):
         toml_plain = os.path.join(base, "plain.toml")
         with open(toml_plain, "wb") as f:
             tomli_w.dump({"server": {"host": "127.0.0.1", "port": 1965, "document_root": os.path.join(base, "doc")}}, f)
+        # values a file may legitimately set to zero: no refill at all (a fixed quota), nobody admitted, retry hint 0
+        zero_files = {}
+        for zname, rl in (("refill-rate-0.0", {"capacity": 3, "refill_rate": 0.0, "retry_after": 9}), ("refill-rate-0", {"capacity": 2, "refill_rate": 0, "retry_after": 7}),
+                          ("capacity-0", {"capacity": 0, "refill_rate": 1.0, "retry_after": 5}), ("retry-after-0", {"capacity": 2, "refill_rate": 0.5, "retry_after": 0})):
+            zp = os.path.join(base, f"zero-{zname}.toml")
+            with open(zp, "wb") as f:
+                tomli_w.dump({"server": {"host": "127.0.0.1", "port": 1965, "document_root": os.path.join(base, "doc")}, "rate_limit": rl}, f)
+            zero_files[zname] = (zp, {"capacity": rl["capacity"], "rate": float(rl["refill_rate"]), "retry_after": rl["retry_after"]})
+        variants += [(f"serve-command:file-sets-{zn}", {"serve": ["--config", zp]}, zc) for zn, (zp, zc) in zero_files.items()]
         variants += [("serve-command:toml", {"serve": ["--config", toml]}, {"capacity": 3, "rate": 0.5, "retry_after": 9}),
                      ("serve-command:toml-silent-about-limits", {"serve": ["--config", toml_plain]}, {"capacity": 10, "rate": 1.0, "retry_after": 30}),
                      ("serve-command:no-file", {"serve": [os.path.join(base, "doc")]}, {"capacity": 10, "rate": 1.0, "retry_after": 30})]
@@ -362,7 +372,7 @@ def run_wired(ctx):
                                       f"through the start_server wiring ({name}) request #{idx} from {a} at t={t} was {'admitted' if adm else 'refused'}; the configured bucket has {float(margin + 1):.3f} tokens",
                                       {"variant": name, "config": cfg, "events": [(t, len(x)) for t, x in events], "decisions": [(d[0], d[1], d[2]) for d in decisions]})
                         break
-                    if not adm and (not resp.startswith("44 ") or str(cfg["retry_after"]) not in resp):
+                    if not adm and (not resp.startswith("44 ") or not re.search(rf"(?<![0-9.]){cfg['retry_after']}(?![0-9.])", resp[3:])):
                         ctx.violation(f"wrong-refusal-text:via=start_server:{name}", f"refusal {resp!r} does not carry the configured retry hint {cfg['retry_after']}", {"variant": name})
                         break
                 ctx.case(("wired", name, tuple(d[2] for d in decisions)), True, sample={"variant": name, "config": cfg, "decisions": [d[2] for d in decisions]})
